@@ -215,7 +215,8 @@ static Csr<double> pattern_values(size_t n, uint64_t mask, uint64_t salt) {
 static void sub_sched_exhaustive(const std::vector<int> &threads) {
     long idx = 0; const uint64_t BATCH = 1024;
     long stride5 = vf::thorough() ? 1 : vf::opt_int("stride5", 61);     // 5x5: all 2^20 patterns in thorough, a strided 1/61 sample (coprime to the batch) in quick
-    for (size_t n = 1; n <= 5; ++n) {
+    const size_t nmaxp = (size_t)vf::opt_int("pattern_nmax", 5);
+    for (size_t n = 1; n <= nmaxp && n <= 5; ++n) {
         uint64_t nm = 1ULL << vf::offdiag_count(n); uint64_t stride = n == 5 ? (uint64_t)stride5 : 1;
         for (uint64_t base = 0; base < nm; base += BATCH * stride, ++idx) {
             if (!vf::selected("sched_exhaustive", idx)) continue;
@@ -244,7 +245,7 @@ static void sub_sched_exhaustive(const std::vector<int> &threads) {
             vf::obs_sum("patterns_enumerated", (double)pats);
         }
     }
-    vf::obs_set("sched_exhaustive_space", std::string("all 2^(n(n-1)) sparsity patterns with stored diagonal for n = 1..4; n = 5: ") + (stride5 == 1 ? "all 2^20" : "every " + std::to_string(stride5) + "th of 2^20") + "; thread counts " + vf::join_ints(threads));
+    if (nmaxp >= 5) vf::obs_set("sched_exhaustive_space", std::string("all 2^(n(n-1)) sparsity patterns with stored diagonal for n = 1..4; n = 5: ") + (stride5 == 1 ? "all 2^20" : "every " + std::to_string(stride5) + "th of 2^20") + "; thread counts " + vf::join_ints(threads));
 }
 
 //---------------------------------------------------------------------------
